@@ -99,13 +99,46 @@ func ReadFrame(r io.Reader) (f Frame, err error) {
 	}
 
 	if f.Header.Length > 0 {
-		// int(f.Header.Length) is safe here cause we have
-		// checked it for overflow above in ReadHeader.
-		f.Payload = make([]byte, int(f.Header.Length))
-		_, err = io.ReadFull(r, f.Payload)
+		f.Payload, err = readPayload(r, f.Header.Length)
 	}
 
 	return f, err
+}
+
+// maxPayloadPrealloc is the biggest payload buffer ReadFrame allocates at
+// once. Header.Length is announced by the peer, so bigger payloads are read
+// into a buffer that grows as the data actually arrives.
+const maxPayloadPrealloc = 1 << 20
+
+// readPayload reads n bytes of frame payload from r.
+func readPayload(r io.Reader, n int64) (p []byte, err error) {
+	if n <= maxPayloadPrealloc {
+		p = make([]byte, int(n))
+		_, err = io.ReadFull(r, p)
+		return p, err
+	}
+	p = make([]byte, 0, maxPayloadPrealloc)
+	for int64(len(p)) < n {
+		if len(p) == cap(p) {
+			size := int64(cap(p)) * 2
+			if size > n || size < 0 {
+				size = n
+			}
+			grown := make([]byte, len(p), int(size))
+			copy(grown, p)
+			p = grown
+		}
+		var m int
+		m, err = io.ReadFull(r, p[len(p):cap(p)])
+		p = p[:len(p)+m]
+		if err != nil {
+			if err == io.EOF && len(p) > 0 {
+				err = io.ErrUnexpectedEOF
+			}
+			return p, err
+		}
+	}
+	return p, nil
 }
 
 // MustReadFrame is like ReadFrame but panics if frame can not be read.
